@@ -308,7 +308,7 @@ fn signers_with_version(base: &[SignerWithStake], v: u64) -> Vec<SignerWithStake
 impl World {
     async fn new(name: &str, fx: &Fixture, e0: u64, imm0: u64, sv0: u64, params: ProtocolParameters, attempts: u8,
                  retention: Option<usize>, cfg: &[(u64, Vec<SignedEntityTypeDiscriminants>)]) -> World {
-        let dir = mithril_common::test::TempDir::create("c20", name);
+        let dir = mithril_common::test::TempDir::create("c20", &format!("{}-{}", name, std::process::id()));
         let tp = |e: u64| TimePoint {
             epoch: Epoch(e),
             immutable_file_number: imm0,
@@ -374,12 +374,23 @@ impl World {
 
     /// build every service of the signer from scratch on the database files of this world (start or restart)
     async fn start_signer(&self) -> Incarnation {
-        let config = Configuration {
+        let mut config = Configuration {
             db_directory: self.dir.join("db"),
             data_stores_directory: self.dir.join("stores"),
             store_retention_limit: self.retention,
             ..Configuration::new_sample(&self.party_id)
         };
+        // private copies of the fixture's KES key and operational certificate (the shared directory may be
+        // rewritten by another harness process building the same fixture)
+        let keys = self.dir.join("keys");
+        if !keys.exists() {
+            std::fs::create_dir_all(&keys).expect("keys dir");
+            for (src, name) in [(&config.kes_secret_key_path, "kes.sk"), (&config.operational_certificate_path, "opcert.cert")] {
+                std::fs::copy(src.as_ref().expect("fixture key material"), keys.join(name)).expect("copy key material");
+            }
+        }
+        config.kes_secret_key_path = Some(keys.join("kes.sk"));
+        config.operational_certificate_path = Some(keys.join("opcert.cert"));
         let logger = logger();
         let dependencies_builder = DependenciesBuilder::new(&config, logger.clone());
         let sqlite_connection = Arc::new(dependencies_builder.build_main_sqlite_connection("signer.db").await.expect("main db"));
